@@ -207,7 +207,7 @@ theorem settled_frame {P : Params} {S : Shape} {t : Tree} {o : Opts} {s : BSt} {
     rw [hmemo]; exact memo_fresh_mono ord.fresh a
 
 theorem visit_settled {P : Params} {S : Shape} {t : Tree} {o : Opts} {s : BSt} {l : Label}
-    (hc : Conforms S t) (hna : NoAlways t) (hdry : o.dry = false) (si : SInv P t s) (ord : Order t s l) :
+    (hc : Conforms S t) (hdry : o.dry = false) (si : SInv P t s) (ord : Order t s l) :
     SInv P t (visit P t o s l) := by
   intro x m hx hok
   by_cases hxl : x = l
@@ -216,7 +216,6 @@ theorem visit_settled {P : Params} {S : Shape} {t : Tree} {o : Opts} {s : BSt} {
     cases hd : t.defs x with
     | none => simp [visit, hd] at hx; subst hx; cases hok
     | some d =>
-      have hnal := hna x d hd
       cases hp : plan P t o s x d with
       | depFailed r => simp [visit, hd, hp] at hx; subst hx; cases hok
       | dry info => exact absurd hp (plan_not_dry hdry info)
@@ -225,7 +224,8 @@ theorem visit_settled {P : Params} {S : Shape} {t : Tree} {o : Opts} {s : BSt} {
         have hw : (visit P t o s x).w = s.w := by simp [visit, hd, hp]
         have hmemo : (visit P t o s x).memo = upd s.memo x (some ⟨true, false, stampOf P info, false⟩) := by simp [visit, hd, hp]
         rw [hmemo] at hx; simp at hx; subst hx
-        have hsem : info = semRec (s.w.recs x) := by rw [hinfo]; exact loadedInfo_noAlways hnal
+        have hsem : info = semRec (s.w.recs x) := by
+          rw [hinfo]; exact loadedInfo_rerun_false (hinfo ▸ hrr)
         refine ⟨d, hd, by rw [hw, ← hsem]; exact hrr, by rw [hw, ← hsem], by rw [hw, ← hsem]; exact hup, ?_⟩
         intro y hy
         obtain ⟨my, a, b, _, c⟩ := hdeps y hy
@@ -259,8 +259,10 @@ theorem visit_settled {P : Params} {S : Shape} {t : Tree} {o : Opts} {s : BSt} {
             · rw [hw]; simp [semRec]
             · rw [hw]; simp [semRec]
             · rw [hw]
-              simp only [semRec, upd_same, Option.getD_some, upToDate, hk, hnal, Bool.false_eq_true, if_false, beq_self_eq_true,
-                Bool.true_and, List.all_eq_true, bne_iff_ne, ne_eq]
+              simp only [semRec, upd_same, Option.getD_some, upToDate, hk]
+              split
+              · rfl
+              simp only [beq_self_eq_true, Bool.true_and, List.all_eq_true, bne_iff_ne, ne_eq]
               intro g hg
               have hnd : ((bodyWrites P t s.w x d).map (·.1)).Nodup := by
                 rw [bodyWrites_fst, hc.gens x d hd hk]; exact S.gensNodup x d.env
@@ -287,12 +289,12 @@ namespace Dawn.Build
 theorem sinv_init (P : Params) (t : Tree) (w : World) : SInv P t (BSt.init w) := by
   intro x m h; simp [BSt.init] at h
 
-theorem build_settled {P : Params} {S : Shape} {t : Tree} {o : Opts} (hc : Conforms S t) (hna : NoAlways t) (hdry : o.dry = false) :
+theorem build_settled {P : Params} {S : Shape} {t : Tree} {o : Opts} (hc : Conforms S t) (hdry : o.dry = false) :
     ∀ (ord : List Label) (s : BSt), SInv P t s → Ordered P t o s ord → SInv P t (build P t o s ord) := by
   intro ord
   induction ord with
   | nil => intro s si _; exact si
-  | cons l rest ih => intro s si ho; exact ih _ (visit_settled hc hna hdry si ho.1) ho.2
+  | cons l rest ih => intro s si ho; exact ih _ (visit_settled hc hdry si ho.1) ho.2
 
 /-- when the skip test passes, the plan is to skip -/
 theorem plan_skip_of {P : Params} {t : Tree} {o : Opts} {s : BSt} {l : Label} {d : Def}
